@@ -993,10 +993,11 @@ ConcurrentTransientHashSet<T, H, E>::begin() noexcept {
   }
   while (ABSL_PREDICT_FALSE(node != nullptr)) {
     iter = node->table.begin();
+    auto next = node->next.load(::std::memory_order_acquire);
     if (iter != node->table.end()) {
-      return {nullptr, iter};
+      return {next, iter};
     }
-    node = _head.next.load(::std::memory_order_acquire);
+    node = next;
   }
   return {};
 }
@@ -1029,7 +1030,7 @@ ConcurrentTransientHashSet<T, H, E>::end() const noexcept {
 template <typename T, typename H, typename E>
 inline ABSL_ATTRIBUTE_ALWAYS_INLINE bool
 ConcurrentTransientHashSet<T, H, E>::empty() const noexcept {
-  return _head.table.empty();
+  return size() == 0;
 }
 
 template <typename T, typename H, typename E>
@@ -1185,7 +1186,8 @@ ABSL_ATTRIBUTE_NOINLINE void ConcurrentTransientHashSet<T, H, E>::reserve(
 template <typename T, typename H, typename E>
 ABSL_ATTRIBUTE_NOINLINE size_t ConcurrentTransientHashSet<T, H, E>::total_size(
     TableNode* node) const noexcept {
-  auto sum = _head.table.bucket_count();
+  // 默认构造的头部占位表容量非0，但实际无法存入元素，需按实际元素数计
+  auto sum = _head.table.size();
   while (true) {
     auto next = node->next.load(::std::memory_order_acquire);
     if (next == nullptr) {
